@@ -137,6 +137,17 @@ def cases(seed, tier, shard, nshards):
                     d['c'].append({'t': 'raw', 'src': '\\begin{lstlisting}%s\n%s\n\\end{lstlisting}' % (opt, raw), 'expect': raw, 'marker': m})
                 else:
                     d['c'].append({'t': 'raw', 'src': 'Wq%dx \\lstinline|%s| Wq%dx' % (k + 100, raw, k + 200), 'expect': raw, 'marker': m})
+        # raw markup passed through on purpose (package embed) next to ordinary text with exactly the same characters:
+        # only the former is markup
+        embeds = 0
+        if r.random() < 0.2:
+            pre += '\\usepackage{embed}\n'
+            k += 1
+            rawm = '<hr class="zqraw"/>'
+            emb = {'t': 'raw', 'src': 'Wq%dx \\html+%s+ Wq%dx' % (k + 300, rawm, k + 400)}
+            txt = {'t': 'raw', 'src': 'Wq%dx \\verb|%s| Wq%dx' % (k + 100, rawm, k + 200), 'expect': rawm, 'marker': 'Wq%dx' % (k + 100)}
+            d['c'].extend([emb, txt] if r.random() < 0.5 else [txt, emb])
+            embeds = 1
         # a citation whose optional note carries raw markup characters (no ']' in the note)
         suffix = ''
         if r.random() < 0.3:
@@ -152,7 +163,7 @@ def cases(seed, tier, shard, nshards):
             bare = docs.latex(d, extra_preamble=pre, body_suffix=suffix)
         finally:
             docs.ADV_ON[0] = True
-        yield {'src': src, 'bare': bare, 'leaves': leaves_of(d), 'renderer': setup_[0], 'theme': setup_[1], 'escape': r.random() < 0.4,
+        yield {'embeds': embeds, 'src': src, 'bare': bare, 'leaves': leaves_of(d), 'renderer': setup_[0], 'theme': setup_[1], 'escape': r.random() < 0.4,
                'encoding': r.choice(['utf-8', 'utf-8', 'ascii', 'latin-1']), 'level': r.choice([-10, 1, 2]),
                'pygments': (r.choice(['present', 'absent']) if lst else 'n/a')}
 
@@ -222,6 +233,12 @@ def run(case, st):
                 if where:
                     break
             bad.append((inv_key(extra, where), 'elements/attributes not present in the bare-marker rendering: %r (%s)' % (extra[:6], where)))
+        if case.get('embeds') is not None and 'zqraw' in case['src']:
+            n_raw = sum(1 for p in parsed.values() for tag, d_, stk in p.elements if d_.get('class') == 'zqraw')
+            st.counters['raw_embeds_checked'] += 1
+            if n_raw != case['embeds']:
+                bad.append(('markup-created-by-text' if n_raw > case['embeds'] else 'raw-embed-not-passed-through',
+                            '%d elements of class zqraw in the output, the document embeds %d (the same characters also occur as ordinary text)' % (n_raw, case['embeds'])))
         if sorted(pages) != sorted(bare_pages):
             bad.append(('file-set-differs', 'adversarial text changed the set of output files: %r vs %r' % (sorted(pages), sorted(bare_pages))))
         # comments / declarations created by text
